@@ -135,6 +135,18 @@ FamC03h(dummy) ==
   {Run(P, <<>>, IF P.kind.spawn \/ P.kind.async THEN ItemIds(P, {"and_then"}) ELSE {}) :
      P \in {Build(kd, "res", pr, StepC03, NoName, ExprInit, "none") : kd \in {q \in Kinds8 : ~q.spawn}, pr \in {<<2, 2>>, <<1, 2>>, <<2, 1, 2>>}}}
 
+\* every operator class as the first action behind `~` (its block capture makes the step boundary visible even where
+\* the callback itself is not called), all eight kinds
+StepC03v(op, b, k) ==
+  IF k = 0 THEN <<Item(IdOf(b, 0, 1), "and_then", "call", <<>>)>>
+  ELSE <<Item(IdOf(b, k, 1), op, IF op = "or" THEN "call" ELSE "block", <<>>), Item(IdOf(b, k, 2), "and_then", "closure", <<>>)>>
+HasOp(P, o) == \E b \in BrSet(P) : \E k \in 0 .. (Depth(P, b) - 1) : \E j \in 1 .. Len(Items(P, b, k)) : Items(P, b, k)[j].op = o
+FamC03v(dummy) ==
+  LET Ps == {LET S(b, k) == StepC03v(op, b, k) IN Build(kd, "res", pr, S, NoName, ExprInit, "none") :
+               kd \in Kinds8, op \in {"map", "then", "inspect", "or_else", "map_err", "or"}, pr \in {<<2, 2>>, <<1, 2>>}}
+  IN  {Run(P, <<>>, IF P.kind.spawn \/ P.kind.async THEN ItemIds(P, {"and_then"}) ELSE {}) :
+         P \in {Q \in Ps : ~(Q.kind.async /\ HasOp(Q, "or"))}}      \* futures have no `.or`
+
 \* ---- C06: abort.  Later steps carry captures, call operands and a handler.
 StepC06(b, k) ==
   IF k = 0 THEN <<Item(IdOf(b, 0, 1), "and_then", "closure", <<>>)>>
@@ -238,8 +250,20 @@ FamC10(dummy) ==
                \cup {Build(kd, "res", pr, StepC10a, NoName, ExprInit, DefaultHandler(kd)) : kd \in Kinds8 \ SyncKinds, pr \in ProfC10}
                \cup {Build(kd, "opt", pr, StepC10o, NoName, ExprInit, "none") : kd \in {Kind(FALSE, t, FALSE) : t \in BOOLEAN}, pr \in ProfC10}}
 
-\* ---- C11: block operands: one operator at a time, in step k0, in several branches, initial blocks
+\* operator x operand form matrix: every operator with a call-expression and with a block operand, in all eight kinds
 OpsC11 == {"map", "and_then", "or_else", "map_err", "then", "inspect"}
+StepC10m(op, form, b, k) ==
+  <<Item(IdOf(b, k, 1), "and_then", "closure", <<>>), Item(IdOf(b, k, 2), op, form, <<>>), Item(IdOf(b, k, 3), "map", "closure", <<>>)>>
+FamC10m(dummy) ==
+  UNION {{Run(P, pl, {}) : pl \in {<<>>} \cup {<<F(x)>> : x \in ItemIds(P, {"and_then"})}} :
+         P \in {LET S(b, k) == StepC10m(c[2], c[3], b, k) IN Build(c[1], "res", pr, S, NoName, ExprInit, "none") :
+                  \* (a call-expression operand of `->`, and of sync `??`, is the callee of the emitted call: Rust evaluates it
+                  \* before the receiver chain; that position is not pinned by the specification, so these pairs are left out)
+                  c \in {x \in Kinds8 \X OpsC11 \X {"call", "block"} :
+                          ~(x[3] = "call" /\ (x[2] = "then" \/ (x[2] = "inspect" /\ ~x[1].async)))},
+                  pr \in {<<1>>, <<2, 1>>}}}
+
+\* ---- C11: block operands: one operator at a time, in step k0, in several branches, initial blocks
 StepC11(op, k0, b, k) ==
   IF k = k0 THEN <<Item(IdOf(b, k, 1), "and_then", "closure", <<>>), Item(IdOf(b, k, 2), op, "block", <<>>), Item(IdOf(b, k, 3), "map", "block", <<>>)>>
   ELSE <<Item(IdOf(b, k, 1), "map", IF b = 1 THEN "block" ELSE "call", <<>>)>>
@@ -348,6 +372,7 @@ Runs(dummy) ==
             [] Family = "C03s" -> FamC03s(0)
             [] Family = "C03a" -> FamC03a(0)
             [] Family = "C03h" -> FamC03h(0)
+            [] Family = "C03v" -> FamC03v(0)
             [] Family = "C06" -> FamC06(0)
             [] Family = "C06h" -> FamC06h(0)
             \* + readiness orders of failing branches in the task-spawning async try macro, under both of its names
@@ -358,7 +383,7 @@ Runs(dummy) ==
             [] Family = "C08" -> FamC08(0)
             [] Family = "C08n" -> FamC08n(0)
             [] Family = "C09" -> FamC09(0)
-            [] Family = "C10" -> FamC10(0)
+            [] Family = "C10" -> FamC10(0) \cup FamC10m(0)
             [] Family = "C11" -> FamC11(0)
             [] Family = "C12" -> FamC12(0)
             [] Family = "C13" -> FamC13(0)
